@@ -389,6 +389,107 @@ theorem calculateUnit_sep (thou thou' : String) (ht : thou = "." ∨ thou = "") 
   exact ⟨executeCode_comma thou thou' ht ht' it.up w (hText it hit w).1.1 (hText it hit w).1.2,
     executeCode_comma thou thou' ht ht' it.down w (hText it hit w).2.1 (hText it hit w).2.2⟩
 
+theorem assoc?_mem {α : Type} (l : List (String × α)) (k : String) (v : α) (h : assoc? l k = some v) : (k, v) ∈ l := by
+  induction l with
+  | nil => simp [assoc?] at h
+  | cons x rest ih =>
+    obtain ⟨k', v'⟩ := x
+    unfold assoc? at h
+    by_cases hk : k' = k
+    · simp only [hk, if_true, Option.some.injEq] at h; subst h; subst hk; exact List.mem_cons_self
+    · simp only [hk, if_false] at h; exact List.mem_cons_of_mem _ (ih h)
+
+/-- all conversion texts of a configuration are of the shape the theorems need -/
+def CodesOK (c : Cfg F) : Prop :=
+  (∀ g ∈ c.units, ∀ it ∈ g.2, ∀ w : F, (',' ∉ codeText it.up w ∧ dotsOK false (codeText it.up w) = true) ∧
+      (',' ∉ codeText it.down w ∧ dotsOK false (codeText it.down w) = true)) ∧
+  (∀ b ∈ c.bridges, ∀ w : F, (',' ∉ codeText b.toSource w ∧ dotsOK false (codeText b.toSource w) = true) ∧
+      (',' ∉ codeText b.toTarget w ∧ dotsOK false (codeText b.toTarget w) = true))
+
+/-- conversion between any two units (inside a family or across a bridge) only runs configured codes -/
+theorem convertUnitWith_congr (ex ex' : String → F → Option F) (c : Cfg F)
+    (hi : ∀ g ∈ c.units, ∀ it ∈ g.2, ∀ w, ex it.up w = ex' it.up w ∧ ex it.down w = ex' it.down w)
+    (hb : ∀ b ∈ c.bridges, ∀ w, ex b.toSource w = ex' b.toSource w ∧ ex b.toTarget w = ex' b.toTarget w)
+    (v : F) (src : UnitRef) (target : String) :
+    convertUnitWith ex c v src target = convertUnitWith ex' c v src target := by
+  unfold convertUnitWith
+  cases hg : assoc? c.units src.group with
+  | none => rfl
+  | some group =>
+    simp only
+    have hgm := assoc?_mem _ _ _ hg
+    have hcg : ∀ v a b, calculateUnitWith ex group v a b = calculateUnitWith ex' group v a b :=
+      fun v a b => calculateUnitWith_congr ex ex' group (hi _ hgm) v a b
+    cases group.find? (fun it => it.names.contains target) with
+    | some tgt => simp only [hcg]
+    | none =>
+      simp only
+      cases hbf : c.bridges.find? (fun b => b.srcName = src.group || b.tgtName = src.group) with
+      | none => rfl
+      | some b =>
+        simp only
+        have hbm : b ∈ c.bridges := List.mem_of_find?_eq_some hbf
+        cases findItem? group (if b.srcName = src.group then (b.srcIndex, b.tgtIndex) else (b.tgtIndex, b.srcIndex)).1 with
+        | none => rfl
+        | some _ =>
+          simp only [hcg]
+          cases calculateUnitWith ex' group v src.index (if b.srcName = src.group then (b.srcIndex, b.tgtIndex) else (b.tgtIndex, b.srcIndex)).1 with
+          | none => rfl
+          | some v1 =>
+            simp only
+            have hcode : ex (if b.srcName = src.group then b.toSource else b.toTarget) v1 =
+                ex' (if b.srcName = src.group then b.toSource else b.toTarget) v1 := by
+              by_cases hs : b.srcName = src.group
+              · simp only [hs, if_true]; exact (hb b hbm v1).1
+              · simp only [hs, if_false]; exact (hb b hbm v1).2
+            rw [hcode]
+            cases ex' (if b.srcName = src.group then b.toSource else b.toTarget) v1 with
+            | none => rfl
+            | some v2 =>
+              simp only
+              cases hog : assoc? c.units (if b.srcName = src.group then b.tgtName else b.srcName) with
+              | none => rfl
+              | some og =>
+                simp only
+                have hogm := assoc?_mem _ _ _ hog
+                cases og.find? (fun it => it.names.contains target) with
+                | none => rfl
+                | some tgt =>
+                  simp only
+                  cases findItem? og (if b.srcName = src.group then (b.srcIndex, b.tgtIndex) else (b.tgtIndex, b.srcIndex)).2 with
+                  | none => rfl
+                  | some _ =>
+                    simp only
+                    rw [calculateUnitWith_congr ex ex' og (hi _ hogm)]
+
+theorem convertUnitWith_sepfields (ex : String → F → Option F) (c : Cfg F) (d t : String) (v : F) (src : UnitRef) (target : String) :
+    convertUnitWith ex { c with dec := d, thou := t } v src target = convertUnitWith ex c v src target := rfl
+
+/-- conversion between any two units gives the same amount and unit under the four separator conventions -/
+theorem convertUnit_sep (c : Cfg F) (thou thou' : String) (ht : thou = "." ∨ thou = "") (ht' : thou' = "," ∨ thou' = "")
+    (hok : CodesOK c) (v : F) (src : UnitRef) (target : String) :
+    convertUnit { c with dec := ",", thou := thou } v src target = convertUnit { c with dec := ".", thou := thou' } v src target := by
+  unfold convertUnit
+  rw [convertUnitWith_sepfields, convertUnitWith_sepfields]
+  apply convertUnitWith_congr
+  · intro g hg it hit w
+    exact ⟨executeCode_comma thou thou' ht ht' it.up w (hok.1 g hg it hit w).1.1 (hok.1 g hg it hit w).1.2,
+      executeCode_comma thou thou' ht ht' it.down w (hok.1 g hg it hit w).2.1 (hok.1 g hg it hit w).2.2⟩
+  · intro b hb w
+    exact ⟨executeCode_comma thou thou' ht ht' b.toSource w (hok.2 b hb w).1.1 (hok.2 b hb w).1.2,
+      executeCode_comma thou thou' ht ht' b.toTarget w (hok.2 b hb w).2.1 (hok.2 b hb w).2.2⟩
+
+/-- THE INTERPRETER, unit conversions included, computes the same value under the four conventions -/
+theorem exec_sep (c : Cfg F) (thou thou' : String) (ht : thou = "." ∨ thou = "") (ht' : thou' = "," ∨ thou' = "")
+    (hok : CodesOK c) (vs : Vars F) (ast : Ast F) :
+    exec { c with dec := ",", thou := thou } vs ast = exec { c with dec := ".", thou := thou' } vs ast := by
+  unfold exec
+  have hconv : convForCalc { c with dec := ",", thou := thou } = convForCalc { c with dec := ".", thou := thou' } := by
+    funext self w other
+    unfold convForCalc
+    simp only [convertUnit_sep c thou thou' ht ht' hok]
+  rw [hconv]
+
 /-! non-vacuity: a conversion text as `execute_code` builds it -/
 example : ',' ∉ "2.5 * 25.4".toList ∧ dotsOK false "2.5 * 25.4".toList = true := by decide
 example : dotsOK false "2 * .5".toList = false := by decide
